@@ -440,7 +440,7 @@ def check_c01(tier, seed):
     for dn, hs in random_batches(seed + 13, tier, 24, 300, 40, dicts=("G", "D")).items():
         run_batch(out, f"order{dn}", dn, hs)
     # names at the 31-unit limit counted in UTF-16 units (surrogate pairs count twice), NULs and high-BMP characters
-    for dn, hs in random_batches(seed + 17, tier, 16, 200, 30, dicts=("E", "C")).items():
+    for dn, hs in random_batches(seed + 17, tier, 16, 200, 30, dicts=("E", "C", "X")).items():
         run_batch(out, f"names{dn}", dn, hs)
     return finish(out, "model_checking",
                   "G1b: every transition of the MC_Tree state graph replayed on the real library (last two steps heavy + query battery); "
@@ -457,7 +457,7 @@ def check_c02(tier, seed):
         run_batch(out, f"forks{dn}", dn, gens.with_forks(rng, hs, 0.7))
     # names whose on-disk form is not their character count: supplementary-plane characters (two code units
     # each), high BMP, NUL inside the name, 31-unit boundary
-    for dn, hs in random_batches(seed + 11, tier, 16, 200, 30, dicts=("C", "D", "E", "B", "G"), reopen_p=0.06).items():
+    for dn, hs in random_batches(seed + 11, tier, 16, 200, 30, dicts=("C", "D", "E", "B", "G", "X"), reopen_p=0.06).items():
         run_batch(out, f"names{dn}", dn, hs)
     fid = Fidelity()
     for v4 in (False, True):
@@ -776,7 +776,7 @@ def check_c09(tier, seed):
     out = Outcome("C09", tier, seed)
     # design level: the API layer's path normalisation, case-insensitive lookups and name validation against the abstract model
     design_api(out, 3 if tier == "quick" else 5, invs="InvAllowed InvNoEffect InvAbs")
-    for dn, hs in random_batches(seed + 7, tier, 30, 300, 40, dicts=("A", "B", "C", "D", "E", "G"), deep=False).items():
+    for dn, hs in random_batches(seed + 7, tier, 30, 300, 40, dicts=("A", "B", "C", "D", "E", "G", "X"), deep=False).items():
         run_batch(out, f"random{dn}", dn, hs)
     run_batch(out, "edges", "A", edges_namespace(out, tier))
     from . import dirchecks
